@@ -324,7 +324,9 @@ func init() {
 	for _, n := range []string{"(*sync.Mutex).Lock", "(*sync.Mutex).Unlock", "(*sync.RWMutex).Lock", "(*sync.RWMutex).Unlock", "(*sync.RWMutex).RLock", "(*sync.RWMutex).RUnlock",
 		"(github.com/inconshreveable/log15.Logger).Info", "(github.com/inconshreveable/log15.Logger).Debug", "(github.com/inconshreveable/log15.Logger).Warn",
 		"(github.com/inconshreveable/log15.Logger).Error", "(github.com/inconshreveable/log15.Logger).Crit", "(github.com/inconshreveable/log15.Logger).New",
-		"fmt.Sprintf", "fmt.Sprint", "fmt.Println", "fmt.Printf", "fmt.Sprintln", "time.Now", "time.Since", "(time.Time).Unix", "(time.Time).Sub", "(time.Duration).Seconds",
+		"(common.Logger).Info", "(common.Logger).Debug", "(common.Logger).Warn", "(common.Logger).Error", "(common.Logger).Crit", "(common.Logger).New",
+		"fmt.Sprintf", "fmt.Sprint", "fmt.Println", "fmt.Printf", "fmt.Sprintln", "time.Now", "time.Since", "(time.Time).Unix", "(time.Time).Sub", "(time.Time).After", "(time.Time).Before", "(time.Time).Add", "(time.Time).Equal", "time.Unix",
+		"(github.com/inconshreveable/log15.Logger).Trace", "(time.Duration).Seconds",
 		"(*sync.WaitGroup).Add", "(*sync.WaitGroup).Done", "(*sync.WaitGroup).Wait", "runtime/debug.Stack", "strings.ToLower", "strings.ToUpper",
 		"encoding/hex.EncodeToString", "strconv.Itoa", "strconv.FormatUint", "strconv.FormatInt"} {
 		reg(n, nil, nop)
@@ -554,6 +556,47 @@ func (c *Ctx) evalInitExpr(e ast.Expr, pkg *packages.Package, t types.Type, name
 	switch x := e.(type) {
 	case *ast.ParenExpr:
 		return c.evalInitExpr(x.X, pkg, t, name, depth+1)
+	case *ast.BinaryExpr:
+		if kindOf(t) != KInt {
+			return nil
+		}
+		lt, rt := info.Types[x.X].Type, info.Types[x.Y].Type
+		if lt == nil || rt == nil {
+			return nil
+		}
+		if b, ok := lt.Underlying().(*types.Basic); ok && b.Info()&types.IsUntyped != 0 {
+			lt = t
+		}
+		if b, ok := rt.Underlying().(*types.Basic); ok && b.Info()&types.IsUntyped != 0 {
+			rt = t
+		}
+		l := c.evalInitExpr(x.X, pkg, lt, name, depth+1)
+		r := c.evalInitExpr(x.Y, pkg, rt, name, depth+1)
+		if l == nil || r == nil || !l.X.IsConst() || !r.X.IsConst() {
+			return nil
+		}
+		var v *Term
+		switch x.Op {
+		case token.ADD:
+			v = Add(l.X, r.X)
+		case token.SUB:
+			v = Sub(l.X, r.X)
+		case token.MUL:
+			v = Mul(l.X, r.X)
+		case token.QUO:
+			if r.X.Val.Sign() == 0 {
+				return nil
+			}
+			v = quoT(l.X, r.X)
+		case token.REM:
+			if r.X.Val.Sign() == 0 {
+				return nil
+			}
+			v = remT(l.X, r.X)
+		default:
+			return nil
+		}
+		return &Val{K: KInt, T: t, X: wrap(v, t)}
 	case *ast.Ident, *ast.SelectorExpr:
 		var obj types.Object
 		if id, ok := x.(*ast.Ident); ok {
